@@ -101,7 +101,7 @@ class Gen:
             it.annotated = True
             it.kind = {'gstruct': 'struct', 'galg_enum': 'alg_enum', 'galias': 'alias', 'inline_alias': 'alias', 'ginline_alias': 'alias'}.get(it_kind, it_kind)
             if it_kind in ('gstruct',):
-                it.generics = r.choice([['T'], ['T'], ['T', 'U']])
+                it.generics = r.choice([['T'], ['T'], ['T', 'U'], ['TId']])     # TId: Go's acronym `id` rewrites it where it is used
             elif it_kind in ('galg_enum', 'galias', 'ginline_alias'):
                 it.generics = ['T']
             if it_kind in ('inline_alias', 'ginline_alias'):
